@@ -22,19 +22,20 @@ LEVEL = "proof"
 
 MANIFEST = {
     "text": "Lean theorems for ALL pairs of object trees (any depth, any branching) of the update_from/update_nss_from model "
-            "(tree with fixes/C12-update-nss-complete.patch): after a successful update the canonical form of the live tree "
-            "equals the copy's at every depth, the root and every child matched by identifying attribute (same class) keep "
-            "their identity at every depth, removed objects are detached, added objects get the live namespace as parent, "
-            "parent links / backend-key consistency / key uniqueness are preserved, the root's source changes iff asked; "
-            "success is proved for trees whose namespaces have one set per identifying attribute (_partial: Operation's three "
-            "variable sets can raise when a variable moves to an earlier set - proved witness, known finding). Aliasing of "
-            "attribute value objects and ConstrainedList hooks with the discarded copy is proved as a fact of the model and "
-            "recorded as findings. Tie: seeded edit scripts and unrelated pairs over 7 root classes built from real SDK "
-            "objects, full vars()-level state + id() map compared with the model after every update.",
-    "note": "partial: success (no exception) proved only for single-set-per-attribute namespaces; SubmodelElementList add-hook "
-            "constraints (AASd-107/108/109/114) not modelled (cannot fire for a valid copy once attributes are copied first and "
-            "removals precede additions - checked by the oracle); dict order of unordered NamespaceSets abstracted; plain/sets "
-            "interleaving abstracted (only visible in the partial state after a raise)",
+            "(tree with fixes/C12-update-nss-complete.patch): the root keeps identity/parent/class; its source changes iff asked; "
+            "every other attribute of the root becomes the copy's (same value object: aliasing proved as a fact); every object "
+            "removed at any depth ends detached (mutual structural induction); every member of every merged NamespaceSet is "
+            "either the live object stored under the same key - same identity, and it IS the recursive update from the copy's "
+            "object with that key and class (so the statement iterates to every depth) - or an adopted object of the copy with "
+            "parent = live namespace and a fresh non-None key, or an untouched live member; a matched Qualifier/Extension "
+            "becomes canon-equal and keeps identity (the fix). PARTIAL: equality of the whole tree at every depth and 'a valid "
+            "copy never raises' are NOT proved in general (decide-checked on concrete 3-level trees; negation witness for "
+            "Operation variables moved between sets); they are covered by the tie and the oracle. Tie: seeded edit scripts and "
+            "unrelated pairs over 7 root classes built from real SDK objects, full vars()-level state + id() map + detached "
+            "objects + exception compared with the model after every update.",
+    "note": "partial: deep canon equality and the assembled namespace invariant are exercised by correspondence/oracle, not proved "
+            "for all trees; SubmodelElementList add-hook constraints not modelled; dict order of unordered NamespaceSets and the "
+            "plain/sets interleaving abstracted (only visible in the partial state after a raise, compared structurally)",
     "technique": "Lean 4 proof by mutual structural induction on object trees; differential correspondence with model/base.py",
 }
 ASSUMPTIONS = [
